@@ -64,6 +64,8 @@ type schemaSet struct {
 	byID  map[string]map[string]any
 	enums [][]string  // every enumeration of constants found in the files
 	near  nearMissCfg // near-misses computed from the constraint itself (nearmiss.go)
+
+	sibCache map[string][]string // $id of a file → the constants of its enumerations of keys
 }
 
 type snode struct {
@@ -297,6 +299,68 @@ func (ss *schemaSet) related(cs []string) []string {
 	return out
 }
 
+// keySiblings: the constants of the OTHER enumerations of keys in the published file of n (all
+// constants match the published pattern of cbc/key), minus cs.
+func (ss *schemaSet) keySiblings(n snode, cs []string) []string {
+	if ss.near.keyRe == nil || n.root == nil {
+		return nil
+	}
+	own := map[string]bool{}
+	for _, c := range cs {
+		if !ss.near.keyRe.MatchString(c) {
+			return nil
+		}
+		own[c] = true
+	}
+	id, _ := n.root["$id"].(string)
+	if sib, ok := ss.sibCache[id]; ok {
+		return minus(sib, own)
+	}
+	seen := map[string]bool{}
+	var all []string
+	var walk func(x any)
+	walk = func(x any) {
+		switch t := x.(type) {
+		case map[string]any:
+			if sh, ok := shapeOf(t); ok && len(sh.consts) > 0 {
+				keys := true
+				for _, c := range sh.consts {
+					keys = keys && ss.near.keyRe.MatchString(c)
+				}
+				for _, c := range sh.consts {
+					if keys && !seen[c] {
+						seen[c] = true
+						all = append(all, c)
+					}
+				}
+			}
+			for _, k := range sortedKeysAny(t) {
+				walk(t[k])
+			}
+		case []any:
+			for _, c := range t {
+				walk(c)
+			}
+		}
+	}
+	walk(n.root)
+	sort.Strings(all)
+	if ss.sibCache == nil {
+		ss.sibCache = map[string][]string{}
+	}
+	ss.sibCache[id] = all
+	return minus(all, own)
+}
+
+func minus(all []string, own map[string]bool) (out []string) {
+	for _, c := range all {
+		if !own[c] {
+			out = append(out, c)
+		}
+	}
+	return out
+}
+
 // ---- positions ---------------------------------------------------------------------------------
 
 type spos struct {
@@ -400,7 +464,9 @@ func (ss *schemaSet) stringCands(r *rand.Rand, n snode, cur any) (kind string, o
 		}
 	}
 	base, _ := cur.(string)
-	for _, c := range nearMisses(r, sh, base, ss.near) {
+	cfg := ss.near
+	cfg.siblings = ss.keySiblings(n, sh.consts)
+	for _, c := range nearMisses(r, sh, base, cfg) {
 		if v, _ := c.val.(string); !have[v] {
 			out = append(out, c)
 		}
@@ -591,7 +657,19 @@ func schemaSweep(c *core.Ctx, accepted []example, pl pool, seen map[string]bool,
 		return
 	}
 	perKey := c.Pick(2, 1<<30)
-	ss.near = nearMissCfg{perClass: c.Pick(3, 6), maxPos: c.Pick(3, 4), perField: c.Pick(3, 8), ix: loadRecordIndex(c.Repo)}
+	ss.near = nearMissCfg{perClass: c.Pick(3, 6), maxPos: c.Pick(3, 4), perField: c.Pick(3, 8), ix: loadRecordIndex(c.Repo), perKey: c.Pick(4, 1<<20)}
+	if kd, ok := ss.byID[base+"cbc/key"]; ok {
+		if defs, ok := kd["$defs"].(map[string]any); ok {
+			if k, ok := defs["Key"].(map[string]any); ok {
+				if p, ok := k["pattern"].(string); ok {
+					ss.near.keyRe, _ = regexp.Compile(p)
+				}
+			}
+		}
+	}
+	if ss.near.keyRe == nil {
+		c.Note("sweep: the published pattern of cbc/key is not readable: no key compositions")
+	}
 	used := map[string]int{}
 	var jobs []*sweepJob
 	r := c.Rng
